@@ -1,11 +1,11 @@
-\* generation (thorough): 3 variables, transactions writing <= 2 variables, 5 blocks
+\* generation (thorough): 3 variables, transactions writing one variable, 4 blocks
 SPECIFICATION Spec
 CONSTANTS
   Vars <- SV3
   Ghost = "w"
   Vals <- SVals
-  MaxBatch = 2
-  MaxBlocks = 5
+  MaxBatch = 1
+  MaxBlocks = 4
   KeyLists <- KL3
   FromProven = TRUE
 VIEW viewQGen
